@@ -205,6 +205,11 @@ impl WCtx {
     pub fn cleanup(&self, d: &Path) {
         let _ = std::fs::remove_dir_all(d);
     }
+    /// remember the sub-case being executed, so that the parent can build a replay file if this
+    /// process hangs or dies inside it
+    pub fn note_current(&self, v: &Value) {
+        let _ = std::fs::write(self.scratch.join("current.json"), serde_json::to_string(v).unwrap_or_default());
+    }
 }
 
 pub trait Prop: Sync {
@@ -430,6 +435,7 @@ pub fn worker_main(prop: &dyn Prop, tier: Tier, seed: u64, scratch: PathBuf) {
         let mut so = stdout.lock();
         let _ = writeln!(so, "{s}");
         let _ = so.flush();
+        let _ = std::fs::remove_file(scratch.join("current.json"));
         // keep the scratch small
         if let Ok(rd) = std::fs::read_dir(&scratch) {
             for e in rd.flatten() {
@@ -452,6 +458,8 @@ pub struct Suspect {
     pub index: u64,
     pub profile: String,
     pub why: String,
+    /// the sub-case the worker had noted when it died (WCtx::note_current)
+    pub case: Option<Value>,
 }
 
 pub struct RunResult {
@@ -604,6 +612,7 @@ pub fn run_parallel(prop: &dyn Prop, tier: Tier, seed: u64, base: &Path) -> RunR
                                     index: idx,
                                     profile: profile.clone(),
                                     why: format!("cannot spawn worker: {e}"),
+                                    case: None,
                                 });
                                 break;
                             }
@@ -636,8 +645,12 @@ pub fn run_parallel(prop: &dyn Prop, tier: Tier, seed: u64, base: &Path) -> RunR
                             let _ = c.kill();
                             let st = c.wait().ok();
                             slots[my_slot].pid.store(0, Ordering::Relaxed);
+                            let noted = std::fs::read_to_string(scratch.join("current.json"))
+                                .ok()
+                                .and_then(|t| serde_json::from_str::<Value>(&t).ok());
                             suspects.lock().unwrap().push(Suspect {
                                 index: idx,
+                                case: noted,
                                 profile: profile.clone(),
                                 why: if killed {
                                     "no result within the time limit (worker killed by watchdog)".to_string()
@@ -898,7 +911,7 @@ pub fn check_main(prop: &dyn Prop, tier: Tier, seed: u64) -> i32 {
             inconclusive.push(format!("case {}: {} (not re-run, too many suspects)", s.index, s.why));
             continue;
         }
-        let case = prop.gen_case(tier, seed, s.index);
+        let case = s.case.clone().unwrap_or_else(|| prop.gen_case(tier, seed, s.index));
         let f = Failure::new("hang_or_abort", None, s.why.clone());
         let p = write_replay(&root, id, &format!("i{}-suspect", s.index), &s.profile, &case, &f);
         let limit = prop.timeout_s(tier).max(30);
